@@ -16,10 +16,13 @@ from vlib import spec as S
 class Reject(Exception):
     """path: [(offset, field name, class name)] innermost first"""
 
-    def __init__(self, offset, fname, cname, why):
+    def __init__(self, offset, fname, cname, why, name_override=None):
         Exception.__init__(self, why)
-        self.path = [(offset, fname, cname)]
+        self.path = []            # filled while unwinding: one entry per packet level, innermost first
+        self.leaf = (offset, fname, cname)
         self.why = why
+        self.name_override = name_override
+        self.levels = []          # (decl, {field name: start offset}) per level, innermost first
 
 
 class V:
@@ -144,7 +147,7 @@ def _apply_move(f, vals, cur, pktstart, ctx, k, opts, fname, cname):
         start = pktstart
     if kind == "aligned":
         if val <= 0:
-            raise Reject(cur, "_shift_to_" + fname, cname, "non-positive alignment")
+            raise Reject(cur, fname, cname, "non-positive alignment")
         adv = (val - ((cur - start) % val)) % val
         new = cur + adv
     elif kind == "shift":
@@ -273,14 +276,22 @@ def _unpack_decl(decl, vals, cur, ctx, k, parent_fname=None, parent_cname=None):
     pktstart = cur
     opts = decl.opts
     groups = bits_groups(decl.fields)
+    starts = {}
+    object.__setattr__(vals, "_starts", starts)
     fname = None
-    try:
-        idx = 0
-        while idx < len(decl.fields):
-            fname, f = decl.fields[idx]
-            start_of_field = cur
+    idx = 0
+    while idx < len(decl.fields):
+        fname, f = decl.fields[idx]
+        before_move = cur
+        try:
             cur = _apply_move(f, vals, cur, pktstart, ctx, k, opts, fname, decl.name)
-            start_of_field = cur
+        except Reject as e:
+            e.path.append((before_move, "_shift_to_" + fname, decl.name))
+            e.levels.append((decl, starts))
+            raise
+        start_of_field = cur
+        starts[fname] = cur
+        try:
             if isinstance(f, S.Bits):
                 run = groups[idx]
                 total = sum(decl.fields[x][1].w for x in run)
@@ -291,6 +302,7 @@ def _unpack_decl(decl, vals, cur, ctx, k, parent_fname=None, parent_cname=None):
                 for x in run:
                     n2, f2 = decl.fields[x]
                     shift -= f2.w
+                    starts[n2] = cur
                     setattr(vals, n2, (whole // (1 << shift)) % (1 << f2.w))
                 cur += nb
                 idx = run[-1] + 1
@@ -301,10 +313,10 @@ def _unpack_decl(decl, vals, cur, ctx, k, parent_fname=None, parent_cname=None):
             v, cur = _unpack_field(f, fname, vals, cur, pktstart, ctx, k, opts, decl.name)
             setattr(vals, fname, v)
             idx += 1
-    except Reject as e:
-        if parent_fname is not None:
-            e.path.append((pktstart, parent_fname, parent_cname))
-        raise
+        except Reject as e:
+            e.path.append((start_of_field, fname, decl.name))
+            e.levels.append((decl, starts))
+            raise
     return cur
 
 
@@ -323,6 +335,7 @@ def ref_unpack(decl, raw, off=0):
 class Out:
     def __init__(self):
         self.chunks = []   # (pos, bytes) in emission order
+        self.positions = {}  # field name -> position where its (first) chunk was placed, outermost packet
         self.cur = 0
         self.extent = 0
 
@@ -429,7 +442,7 @@ def _pack_field(f, fname, v, vals, out, pktstart, k, opts, cname):
         raise TypeError(f)
 
 
-def _pack_decl(decl, vals, out, k):
+def _pack_decl(decl, vals, out, k, top=False):
     pktstart = out.cur
     opts = decl.opts
     groups = bits_groups(decl.fields)
@@ -437,6 +450,8 @@ def _pack_decl(decl, vals, out, k):
     while idx < len(decl.fields):
         fname, f = decl.fields[idx]
         _pack_move(f, vals, out, pktstart, k, opts, fname)
+        if top:
+            out.positions[fname] = out.cur
         if isinstance(f, S.Bits):
             run = groups[idx]
             total = sum(decl.fields[x][1].w for x in run)
@@ -456,8 +471,18 @@ def _pack_decl(decl, vals, out, k):
 
 def ref_pack(decl, vals):
     out = Out()
-    _pack_decl(decl, vals, out, {})
+    _pack_decl(decl, vals, out, {}, top=True)
     return out.render()
+
+
+def ref_layout(decl, vals):
+    """positions of the top-level fields on output (no rendering, no overlap check)"""
+    out = Out()
+    try:
+        _pack_decl(decl, vals, out, {}, top=True)
+    except Reject:
+        pass
+    return out.positions
 
 
 # ---------------------------------------------------------------------------------------------------
